@@ -474,3 +474,56 @@ def rule_scoped_names(repo, res):
     for comp in ("FE{element_counter:d}", "_C{flat_component:d}", "'_D' + ''.join", "averaged]", "entity_type]"):
         if comp not in src:
             res.fail(key, f"table name lacks the component `{comp}`: tables of different terminals share a name", et.line(f.node))
+
+
+@rule(
+    "ID-EQ-COHERENCE",
+    ["C19", "C13", "C11"],
+    "QuadratureRule.id() names every rule-dependent identifier (weights_<id>, tables _Q<id>, sp_/sv_ temporaries) while "
+    "__eq__ decides which rules are kept apart in a kernel: the digest behind id() must consume every field __eq__ compares "
+    "(points and weights), otherwise two rules that differ only in the unhashed field are both generated under one name "
+    "(redefinition in C, or one rule's tables replacing the other's)",
+    min_instances=2,
+)
+def id_eq_coherence(repo, res):
+    m = repo.mod("ffcx.ir.representationutils")
+    eq = m.func("QuadratureRule.__eq__")
+    hs = m.func("QuadratureRule.__hash__")
+    idf = m.func("QuadratureRule.id")
+    res.functions.update({eq.key, hs.key, idf.key})
+    compared = set()
+    for n in ast.walk(eq.node):
+        if isinstance(n, ast.Attribute) and isinstance(n.value, ast.Name) and n.value.id == "self":
+            compared.add(n.attr)
+    if not compared:
+        raise AnalysisError("QuadratureRule.__eq__ compares no field of self")
+    # fields fed to the digest object that id() reads
+    digest_attr = None
+    for n in ast.walk(idf.node):
+        if isinstance(n, ast.Attribute) and isinstance(n.value, ast.Name) and n.value.id == "self" and n.attr not in compared:
+            if any(isinstance(p, ast.Call) and isinstance(p.func, ast.Attribute) and p.func.attr in ("hexdigest", "digest") and p.func.value is n for p in ast.walk(idf.node)):
+                digest_attr = n.attr
+    if digest_attr is None:
+        raise AnalysisError("QuadratureRule.id does not read a digest attribute")
+    hashed = set()
+    for n in ast.walk(hs.node):
+        if isinstance(n, ast.Call):
+            nm = call_name(n) or ""
+            is_ctor = nm.startswith("hashlib.") and any(isinstance(p, ast.Assign) and p.value is n and ast.unparse(p.targets[0]) == f"self.{digest_attr}" for p in ast.walk(hs.node))
+            is_update = nm == f"self.{digest_attr}.update"
+            if is_ctor or is_update:
+                for a in n.args:
+                    for x in ast.walk(a):
+                        if isinstance(x, ast.Attribute) and isinstance(x.value, ast.Name) and x.value.id == "self":
+                            hashed.add(x.attr)
+    key = f"{hs.key}:digest-covers-eq"
+    res.ob(key)
+    missing = sorted(compared - hashed)
+    if missing:
+        res.fail(key, f"__eq__ compares {sorted(compared)} but the digest behind id() consumes only {sorted(hashed)}: two rules differing only in {missing} "
+                 f"(custom rules with the same points and other weights; the vertex scheme next to the degree-2 rule) share `weights_<id>` and every `_Q<id>` table name",
+                 m.line(hs.node))
+    key = f"{idf.key}:digest-is-the-hashed-one"
+    res.ob(key)
+    if f"self.{digest_attr}" not in ast.unparse(hs.node):
+        res.fail(key, "id() reads a digest that __hash__ does not create", m.line(idf.node))
